@@ -24,6 +24,7 @@ import (
 
 type violation struct {
 	Class  string `json:"class"`
+	Sub    string `json:"sub,omitempty"` // coarse magnitude for the size-limit classes (part of the key)
 	Detail string `json:"detail"`
 }
 
@@ -181,10 +182,24 @@ type judge struct {
 	verbose bool
 }
 
-func (j *judge) viol(class, format string, a ...any) {
+func (j *judge) viol(class, format string, a ...any) { j.violSub(class, "", format, a...) }
+
+func (j *judge) violSub(class, sub, format string, a ...any) {
 	if len(j.res.Viol) < 12 {
-		j.res.Viol = append(j.res.Viol, violation{class, fmt.Sprintf(format, a...)})
+		j.res.Viol = append(j.res.Viol, violation{class, sub, fmt.Sprintf(format, a...)})
 	}
+}
+
+// msgSetExcess grades by how much a message set (produce v0-2) exceeds the
+// batch limit: up to one message header, or more.
+func (j *judge) msgSetExcess(excess int) string {
+	switch {
+	case j.b.V >= 3:
+		return ""
+	case excess <= 34:
+		return "by-at-most-one-message-header"
+	}
+	return "by-more-than-one-message-header"
 }
 
 func showBytes(b []byte) string {
@@ -222,7 +237,7 @@ func (j *judge) judge(all []recSpec, proms []promised, frames [][]byte) {
 		switch {
 		case p.err == nil:
 			if must {
-				j.viol("oversized-record-accepted", "record %d (topic %d partition %d) alone encodes to a %d byte batch > ProducerBatchMaxBytes %d but its promise reported success", i, r.T, r.P, own, b.BatchMax)
+				j.violSub("oversized-record-accepted", j.msgSetExcess(own-int(b.BatchMax)), "record %d (topic %d partition %d) alone encodes to a %d byte batch > ProducerBatchMaxBytes %d but its promise reported success", i, r.T, r.P, own, b.BatchMax)
 			}
 		case errors.Is(p.err, kerr.MessageTooLarge):
 			rejected[i] = true
@@ -278,7 +293,15 @@ func (j *judge) judge(all []recSpec, proms []promised, frames [][]byte) {
 			continue
 		}
 		if len(frame) > int(b.WriteMax) {
-			j.viol("frame-exceeds-write-limit", "produce frame %d is %d bytes (4 byte size + %d) > BrokerMaxWriteBytes %d; %d topics %d partitions", fi, len(frame), len(frame)-4, b.WriteMax, len(p.Topics), countParts(p))
+			sub := ""
+			if p.Version >= 9 {
+				// flexible versions end every partition / topic element with a tag-section byte
+				sub = "beyond-the-partition-and-topic-tag-bytes"
+				if len(frame)-int(b.WriteMax) < countParts(p)+len(p.Topics) {
+					sub = "within-the-partition-and-topic-tag-bytes"
+				}
+			}
+			j.violSub("frame-exceeds-write-limit", sub, "produce frame %d is %d bytes (4 byte size + %d) > BrokerMaxWriteBytes %d; %d topics %d partitions", fi, len(frame), len(frame)-4, b.WriteMax, len(p.Topics), countParts(p))
 		}
 		if p.ClientID == nil || *p.ClientID != b.ClientID {
 			j.viol("request-field", "frame %d: client id differs from the configured one", fi)
@@ -399,7 +422,7 @@ func (j *judge) judgePartition(where string, recs []byte, all []recSpec, want []
 	j.res.Batches++
 	j.res.BatchLens = append(j.res.BatchLens, len(recs))
 	if len(recs) > int(b.BatchMax) {
-		j.viol("batch-exceeds-max", "%s: the written batch is %d bytes > ProducerBatchMaxBytes %d", where, len(recs), b.BatchMax)
+		j.violSub("batch-exceeds-max", j.msgSetExcess(len(recs)-int(b.BatchMax)), "%s: the written batch is %d bytes > ProducerBatchMaxBytes %d", where, len(recs), b.BatchMax)
 	}
 	d := reflog.Decode(recs, reflog.Options{Decompress: codecs.Decompress})
 	if d.Tail != reflog.TailNone {
@@ -507,7 +530,7 @@ func (j *judge) judgePartition(where string, recs []byte, all []recSpec, want []
 	}
 	// "this is the maximum size of a record batch before compression"
 	if uncompressed > int(b.BatchMax) {
-		j.viol("batch-exceeds-max", "%s: the batch is %d bytes before compression > ProducerBatchMaxBytes %d (%d records)", where, uncompressed, b.BatchMax, len(got))
+		j.violSub("batch-exceeds-max", j.msgSetExcess(uncompressed-int(b.BatchMax)), "%s: the batch is %d bytes before compression > ProducerBatchMaxBytes %d (%d records)", where, uncompressed, b.BatchMax, len(got))
 	}
 	// content
 	if len(got) > len(want) {
